@@ -173,6 +173,8 @@ static int sig_slot(int signo) {
   if (signo == SIGUSR1) return 0;
   if (signo == SIGHUP) return 1;
   if (signo >= SIGRTMIN && signo < SIGRTMIN + 4) return 2 + (signo - SIGRTMIN);
+  if (signo == SIGTRAP) return 6;
+  if (signo == SIGURG) return 7;
   return -1;
 }
 
@@ -281,6 +283,8 @@ int main(int argc, char **argv) {
   sigaction(SIGUSR1, &sa, NULL);
   sigaction(SIGHUP, &sa, NULL);
   for (int i = 0; i < 4; i++) sigaction(SIGRTMIN + i, &sa, NULL);
+  sigaction(SIGTRAP, &sa, NULL);
+  sigaction(SIGURG, &sa, NULL);
   block_all_signals(); // main thread never handles signals
 
   while (fgets(line, sizeof line, f)) {
